@@ -286,7 +286,9 @@ func runC34(c *Ctx) {
 			}
 		}
 		if VRes(0, ToFn(join))(v) {
-			c.GuardedFlow(key+"-verbatim", full, lf, []Clause{{Not(riskFirst), clen(3)}}, nil)
+			// (len != 2 stands for "three components" once the lengths 0, 1 and >3 have returned: the
+			// single-component forms are separate obligations of this rule)
+			c.GuardedFlow(key+"-verbatim", full, lf, []Clause{{Not(riskFirst), clen(3), Not(clen(2))}}, nil)
 			continue
 		}
 		c.Violated(key+"-other", lf.Pos(), "Full returns something other than \"latest/\"+name, track+\"/stable\" or the joined components")
